@@ -1,6 +1,6 @@
 """C03 -- PLE/PLUQ (layer B: bounded functional checks against spec-side linear algebra; see checks/alg.py)."""
 from vplib.core import with_canaries
-from checks import alg
+from checks import alg, layer_s
 
 LEVEL = "model_checking"
 META = {"explanation": "bounded functional: one concrete (small) shape per group, every bit pattern of the operands; loop bounds found by unwinding refinement and confirmed by unwinding assertions; compared with spec-side linear algebra (contracts/alg_spec.h) that shares no code with the library",
@@ -8,4 +8,4 @@ META = {"explanation": "bounded functional: one concrete (small) shape per group
 
 
 def groups(tier, seed):
-    return with_canaries(alg.c03(tier))
+    return with_canaries(alg.c03(tier)) + with_canaries([g for g in layer_s.front_groups(["C03", "C11"]) if g.function in ("mzd_pluq", "mzd_ple")])
